@@ -92,6 +92,22 @@ mut("lexer_string_cursor", ["C06"], "parser.lex/",
 mut("check_inbracket_index", ["C06"], "parser.check/",
     [("parser.go", "\t\tif prefixNotation && parenCnt == 0 && i != last {", "\t\tif prefixNotation && parenCnt == 0 && p.tokens[i+1].typ != comment {")], "structural pre-check peeks one token ahead without a bound")
 
+# ---- C11
+mut("key_allocation_starts_at_zero", ["C11"], "GetOrRegisterKey/",
+    [("variable.go", "\tfor i := 1; i <= size; i++ {", "\tfor i := 0; i <= size; i++ {")])
+mut("key_fallthrough_reuses_size", ["C11"], "GetOrRegisterKey/post/",
+    [("variable.go", "\tkey := VariableKey(size + 1)\n\tcc.VariableKeyMap[name] = key", "\tkey := VariableKey(size)\n\tcc.VariableKeyMap[name] = key")])
+mut("slice_fetcher_threshold_256", ["C11"], "NewCtxFromVars/",
+    [("variable.go", "\tif minKey <= maxKey && 0 <= minKey && maxKey < 256 {", "\tif minKey <= maxKey && -1 <= minKey && maxKey < 256 {")], "slice fetcher chosen although a key is -1")
+mut("unify_uint32_through_int32", ["C11"], "unifyType/post/scalars-and-identity",
+    [("variable.go", "\tcase uint32:\n\t\treturn int64(v)", "\tcase uint32:\n\t\treturn int64(int32(v))")])
+mut("slice_fetcher_one_short", ["C11"], "NewSliceVarFetcher/",
+    [("variable.go", "\tfetcher := make([]Value, maxKey+1)", "\tfetcher := make([]Value, maxKey)")])
+mut("map_fetcher_skips_zero_values", ["C11"], "NewMapVarFetcher/",
+    [("variable.go", "\tfor name, val := range vals {\n\t\ts[name] = unifyType(val)\n\t}", "\tfor name, val := range vals {\n\t\tif val != 0 {\n\t\t\ts[name] = unifyType(val)\n\t\t}\n\t}")], "a variable bound to int 0 is dropped")
+mut("duration_rounds_to_millis", ["C11"], "unifyType/post/scalars-and-identity",
+    [("variable.go", "\t\treturn int64(v / time.Second)", "\t\treturn int64(v / time.Millisecond)")])
+
 def main():
     out = os.path.join(os.path.dirname(os.path.abspath(__file__)), "mutants")
     os.makedirs(out, exist_ok=True)
